@@ -13,7 +13,7 @@ PROPERTY = "C03"
 LEVEL = "exploration"
 NEED_EXT = True
 REQUIRED = ["refit.outputs", "refit.state", "same_seed.outputs", "global_seed_independence",
-            "refit.after_set_params", "refit.after_failed_fit", "refit.frames", "two_instances", "hashseed.two_processes", "refit.after_interrupted_fit"]
+            "refit.after_set_params", "refit.after_failed_fit", "refit.frames", "two_instances", "hashseed.two_processes", "refit.after_interrupted_fit", "concurrent_fits"]
 RULE = ("fittable registered classes (23) x configurations x training-set pairs (A, B) differing in n, d, label set / "
         "vocabulary / categorical columns x {fit A, [query], fit B, fit A} x 3 seeds (thorough 12); thread-parallel "
         "configurations included; non-trivial = A and B differ in shape or label set; distinct = distinct (class, "
@@ -292,6 +292,63 @@ def run_case(case, ctx):
                 if bad:
                     ctx.violation(K + "refit/outputs-differ-from-fresh-fit/after-interrupted-fit", "%s: %s differs from "
                                   "a fresh instance fitted on B" % (cfg["history"], bad[0]), cfg=cfg)
+        # ---- two instances fitted AT THE SAME TIME in two threads (same-sized training sets, yield injection in the
+        # library's files): each gets the model it gets when they are fitted one after the other.  Only for
+        # configurations that do not read the global generator (checked: two global seeds, same model)
+        if sub % 3 == 1:
+            import threading
+            from vrt.sched import Perturb
+            cfg = {"class": spec.name, "variant": vi, "history": "two fits in two threads", "sub": sub}
+            try:
+                seq = []
+                if spec.name == "ConstraintKMeans":
+                    raise RuntimeError("_switch_clusters draws from the global generator by design (see ASSUMPTIONS)")
+                if any(k_.split("__")[-1].endswith("random_state") and v_ is None
+                       for k_, v_ in spec.make(vi).get_params(deep=True).items()):
+                    raise RuntimeError("an unseeded (nested) estimator draws from the global generator")
+                for D_, gs in ((A, 5), (Cset, 5), (A, 99), (A, 1234), (Cset, 77)):
+                    e_ = spec.make(vi)
+                    numpy.random.seed(gs)
+                    spec.fit(e_, _copy(D_))
+                    seq.append(spec.outputs(e_, spec.query(numpy.random.RandomState(9), D_)))
+                rng_free = all(exact(seq[0][m], seq[2][m]) and exact(seq[0][m], seq[3][m]) and exact(seq[1][m], seq[4][m])
+                               for m in seq[0])
+            except Exception:
+                rng_free = False
+            if not rng_free:
+                ctx.excluded("concurrent fits: this configuration reads the global generator (or cannot be fitted twice)")
+            else:
+                for rep in range(3):
+                    pair = [spec.make(vi), spec.make(vi)]
+                    errs = []
+
+                    def work(e_, D_):
+                        try:
+                            spec.fit(e_, _copy(D_))
+                        except BaseException as ex_:   # noqa: B036
+                            errs.append(ex_)
+
+                    numpy.random.seed(5)
+                    with Perturb(_library_files(), seed=sub * 13 + rep, prob=0.4, max_us=300) as pt:
+                        ts = [threading.Thread(target=work, args=(pair[0], A)),
+                              threading.Thread(target=work, args=(pair[1], Cset))]
+                        [t.start() for t in ts]
+                        [t.join(120) for t in ts]
+                    ctx.hit("concurrent_fits")
+                    ctx.extra["yields"] = ctx.extra.get("yields", 0) + pt.yields
+                    if errs or any(t.is_alive() for t in ts):
+                        ctx.violation(K + "concurrent-fits/raised/%s" % (type(errs[0]).__name__ if errs else "hang"),
+                                      "two instances fitted in two threads: %s" % (str(errs[0])[:120] if errs else
+                                                                                    "a thread did not finish"), cfg=cfg)
+                        break
+                    got = [spec.outputs(pair[0], spec.query(numpy.random.RandomState(9), A)),
+                           spec.outputs(pair[1], spec.query(numpy.random.RandomState(9), Cset))]
+                    bad = [m for j in (0, 1) for m in seq[j] if m not in got[j] or not same_out(seq[j][m], got[j][m])]
+                    if bad:
+                        ctx.violation(K + "concurrent-fits/outputs-differ", "two instances fitted at the same time in two "
+                                      "threads give another %s than when fitted one after the other: state is shared "
+                                      "between instances" % bad[0], cfg=cfg)
+                        break
         # ---- two instances: fitting the second one (other data) changes nothing of what the first one answers
         cfg = {"class": spec.name, "variant": vi, "history": "e1.fit(A); e2.fit(B); e1 again", "sub": sub}
         try:
@@ -508,6 +565,21 @@ def run_case(case, ctx):
                         break
     ctx.cls("class=" + spec.name)
     ctx.sample({"class": spec.name, "sub": sub})
+
+
+_LIBFILES = []
+
+
+def _library_files():
+    """every source file of the library (yield injection matches on the end of the file name)"""
+    if not _LIBFILES:
+        import glob
+        import os
+        from vrt import boot
+        root = os.path.join(os.path.realpath(boot.REPO), "mlinsights")
+        _LIBFILES.extend(sorted({os.sep + os.path.relpath(f, os.path.dirname(root))
+                                 for f in glob.glob(os.path.join(root, "**", "*.py"), recursive=True)}))
+    return tuple(_LIBFILES)
 
 
 def _frames(spec, A, B):
